@@ -46,6 +46,17 @@ def configurations(ctx):
                             continue  # keeps the exhaustive space tractable; covered by random schedules below
                         yield {"version": version, "parked": parked, "senders": [[list(s)] for s in combo],
                                "wakes": wakes, "awake": [C]}
+    # whatever received message makes the listener release parked commands (not only the documented wake type):
+    # every internal type of the version as the listener's message, racing a send for a later key of the flush
+    from .. import spec
+
+    for version in ("2.0", "2.1", "2.2"):
+        for t in range(0, spec.INTERNAL_MAX[version] + 1):
+            if t in (2, 3):
+                continue
+            for senders in ([[[*K2, True]]], [[[*K1, True]]], [[[*K2, True]], [[*K1, True]]]):
+                yield {"version": version, "parked": [K1, K2], "senders": senders, "wakes": [A], "awake": [C],
+                       "listener_type": t}
     if not ctx.quick:
         for version in ("2.0", "2.1", "2.2"):
             for parked in ([K1], [K1, K2]):
@@ -68,7 +79,15 @@ def judge(ctx, config: dict, prefix, outcome, mode: str) -> None:
     for key, what in outcome.problems:
         if key == "lost-update":
             # classify the mechanism for the findings key
-            key = "flush-pops-overwritten-entry" if "S" in "".join(outcome.labels) else "lost-update-sequential"
+            import re
+
+            match = re.search(r"last sent '(.+?)' but writes were (\[.*?\]) \(", what)
+            if "S" not in "".join(outcome.labels):
+                key = "lost-update-sequential"
+            elif match and f"'{match.group(1)}'" in match.group(2):
+                key = "stale-value-written-after-newer"
+            else:
+                key = "racing-send-never-written"  # e.g. the flush pops an entry a concurrent send just replaced
         ctx.violation(key, f"schedule {' '.join(outcome.labels)}: {what}", case)
     for err in outcome.listener_errors:
         if not err["library"]:
